@@ -19,10 +19,16 @@ func isNotSupportedError(e error) bool {
 	return ok
 }
 
-func TamePanic(out chan []LogEntry) {
+// TamePanic turns a panic of a pipeline goroutine into an error entry. recover only works
+// when TamePanic itself is the deferred function: use `defer TamePanic(out)`, never
+// `defer func() { TamePanic(out) }()`. If recovered is given, *recovered is set when a
+// panic was caught.
+func TamePanic(out chan []LogEntry, recovered ...*bool) {
 	if err := recover(); err != nil {
 		logger.Error(err, " stack:", string(debug.Stack()))
+		for _, r := range recovered {
+			*r = true
+		}
 		out <- []LogEntry{{Err: fmt.Errorf("panic: %v", err)}}
-		recover()
 	}
 }
